@@ -90,13 +90,16 @@ func (r *InboundRequestSingleFlight) GetOrCreate(ctx *Context, response *GraphQL
 
 	shard := r.shardFor(key)
 
-	request := &InflightRequest{
-		Done: make(chan struct{}),
-		ID:   key,
-	}
+	for {
+		request := &InflightRequest{
+			Done: make(chan struct{}),
+			ID:   key,
+		}
 
-	inflight, shared := shard.m.LoadOrStore(key, request)
-	if shared {
+		inflight, shared := shard.m.LoadOrStore(key, request)
+		if !shared {
+			return request, nil
+		}
 		request = inflight.(*InflightRequest)
 		request.AddFollower()
 		select {
@@ -104,13 +107,18 @@ func (r *InboundRequestSingleFlight) GetOrCreate(ctx *Context, response *GraphQL
 			if request.Err != nil {
 				return nil, request.Err
 			}
+			if request.Data == nil {
+				// The leader finished between our LoadOrStore and AddFollower: it saw no
+				// follower and published no data. The entry is gone from the map, so start
+				// over; returning it would make the caller act as a second leader of an
+				// already finished request (and close Done twice).
+				continue
+			}
 			return request, nil
 		case <-ctx.ctx.Done():
 			return nil, ctx.ctx.Err()
 		}
 	}
-
-	return request, nil
 }
 
 func (r *InboundRequestSingleFlight) FinishOk(req *InflightRequest, data []byte) {
